@@ -348,7 +348,7 @@ REGISTRY["C20"] = {
                    "instance ids seen in the traces of all engine runs executed in the same test binary never repeat. Draws also come from 2..4 different generators at the same time (one goroutine each); generators carry a lineage (related by snapshot / restore): ids of generators of different lineages must never collide, restored generators included. TestC20Exhaustion (a process of its own): 140 000 (thorough 280 000) generators are requested - more than twice the 65 535 partitions of the id library - while the first three and every 5000th stay in use; every identifier of every generator that was handed out must be new."),
     "level_note": "Trusted: nothing beyond Go maps. Ids a source issues after the snapshot are not compared with the restored generator's (two live holders of one partition are outside the statement). Collisions of time-derived fallback prefixes or random sno partitions across generators are possible in principle with negligible probability; a reported collision prints the values.",
     "technique": "rapid stateful property test (generator pool history) with a global uniqueness oracle; concurrent draws",
-    "rule": ("Distinct = history descriptor. Non-trivial = >=2 goroutines drawing >=10^4 ids concurrently from one generator, or >=2 generators alive, or a restore."),
+    "rule": ("Distinct = history descriptor. Non-trivial = >=2 goroutines drawing >=10^4 ids concurrently from one generator, or >=2 generators alive, or a restore. TestC20ManyInstances: 300..2000 start->end instances created through Engine.NewProcess from 1..8 goroutines (default generators) and started: instance ids and NewFlowTrace flow ids of the round pairwise distinct; non-trivial = at least 800 instances."),
     "max_workers": 4,
     "tests": [
         {"name": "TestC20Pool", "checks": {"quick": 25, "thorough": 150}, "shards": {"quick": 8, "thorough": 16}},
